@@ -81,6 +81,39 @@ Section RestraintReexec.
     rewrite (terms_ext O c _ s2 xs F2 F1). split; reflexivity.
   Qed.
 
+  (* ---- an update at relative step 0, field by field ---- *)
+  Lemma centers_update_rel0 c (r : rstate) t :
+    s_centers (centers_update O c r t 0 false) =
+      (if c_chg_centers c && (c_nstages c =? 0) && (t - s_first r <=? c_nsteps c)
+       then map2 (wrapv O) (c_vars c) (new_centers O c (ratio O (t - s_first r) (c_nsteps c)))
+       else s_centers r) /\
+    s_stage (centers_update O c r t 0 false) = s_stage r.
+  Proof.
+    unfold centers_update, first_time. cbn [Z.ltb Z.eqb Z.compare andb].
+    destruct (c_chg_centers c); cbn [andb]; [|split; reflexivity].
+    destruct (c_nstages c =? 0); cbn [negb andb].
+    - destruct (t - s_first r <=? c_nsteps c); unfold set_incr, update_centers; prj; split; reflexivity.
+    - destruct (s_stage r <=? c_nstages c); unfold set_incr; prj; split; reflexivity.
+  Qed.
+
+  Lemma k_update_rel0 c (r : rstate) t xs :
+    let u := fst (k_update O c r t 0 false xs) in
+    s_k u = (if c_chg_k c
+             then if c_nstages c =? 0
+                  then if t - s_first r <=? c_nsteps c then k_of_lambda O c (lam_cont c t (s_first r)) else s_k r
+                  else if t =? s_first r then k_of_lambda O c (lam0 c) else s_k r
+             else s_k r) /\
+    s_stage u = s_stage r /\ s_FE u = s_FE r /\
+    (c_chg_k c && (c_nstages c =? 0) = false -> s_kincr u = s_kincr r).
+  Proof.
+    cbn zeta. unfold k_update, first_time, lam_cont, lam0. cbn [Z.ltb Z.compare andb].
+    destruct (c_chg_k c); cbn [andb]; [|repeat split; reflexivity].
+    destruct (c_nstages c =? 0); cbn [negb].
+    - destruct (t - s_first r <=? c_nsteps c); unfold set_k; prj; repeat split; intros; try discriminate; reflexivity.
+    - destruct (t =? s_first r); unfold set_k; prj; rewrite ?andb_false_r; cbn [andb]; prj;
+        rewrite ?andb_false_r; cbn [andb]; prj; repeat split; reflexivity.
+  Qed.
+
   (* re-executing step t from the restored state, with step_relative = 0 *)
   Lemma reexec_restored c s1 t xs : r_ok c -> r_inv O c s1 -> fresh_at c t s1 ->
     let so' := rstep O c (restore O c s1) t 0 false xs in
@@ -103,18 +136,29 @@ Section RestraintReexec.
       pose proof (k_update_W O c (centers_update O c (restore O c s1) t 0 false) t 0 false xs) as HkW.
       rewrite Ek in HkW. cbn [fst] in HkW. rewrite HkW. apply centers_update_W. }
     rewrite HW. clear HW.
-    unfold upd, fresh_at, r_inv, r_ok, r_moving, r_staged in *.
-    destruct s1 as [ce inc k ki st f W FE]. prj.
+    unfold upd.
+    set (rA := centers_update O c (restore O c s1) t 0 false).
+    destruct (k_update_rel0 c rA t xs) as (K1 & K2 & K3 & K4). cbn zeta in K1, K2, K3, K4.
+    rewrite K1, K2, K3. rewrite k_update_centers, k_update_first.
+    assert (HfA : s_first rA = s_first (restore O c s1)) by apply centers_update_first.
+    assert (HkA : s_k rA = s_k (restore O c s1)) by apply centers_update_k.
+    assert (HFA : s_FE rA = s_FE (restore O c s1)) by apply centers_update_FE.
+    assert (HkiA : s_kincr rA = s_kincr (restore O c s1)) by apply centers_update_kincr.
+    destruct (centers_update_rel0 c (restore O c s1) t) as [C1 C2]. fold rA in C1, C2.
+    rewrite HfA, HkA, HFA, C1, C2. clear K1 K2 K3 C1 C2. rewrite HkiA in K4. clear HfA HkA HFA HkiA. clearbody rA.
+    unfold fresh_at, r_inv, r_ok, r_moving, r_staged in *.
+    destruct s1 as [ce inc k ki st f W FE]. unfold restore in *. prj.
     destruct Hi as (I1 & I2 & I3 & I4 & I5 & I6). destruct Hf as (G1 & G2 & G3).
-    unfold restore, centers_update, k_update, first_time, update_centers, set_incr, set_stage, set_k. prj.
-    cbn [Z.eqb Z.ltb Z.compare andb negb].
     destruct (c_chg_centers c) eqn:Ecc, (c_chg_k c) eqn:Eck, (c_nstages c =? 0) eqn:Ens, (c_acc_work c) eqn:Eaw;
       cbn [negb andb orb] in *; try discriminate;
       try (specialize (I1 eq_refl)); try (specialize (I2 eq_refl)); try (specialize (I3 eq_refl));
       try (specialize (I4 eq_refl)); try (specialize (I5 eq_refl)); try (specialize (I6 eq_refl));
       try (specialize (G1 eq_refl eq_refl)); try (specialize (G2 eq_refl eq_refl)); try (specialize (G3 eq_refl eq_refl));
-      subst; prj; rewrite ?andb_false_r; cbn [andb]; prj;
-      ifs; prj; rewrite ?andb_false_r; cbn [andb]; prj;
-      repeat split; intros; try discriminate; try reflexivity; auto.
+      try (specialize (K4 eq_refl)); subst; prj.
+    all: repeat match goal with
+           | |- context [if ?b then _ else _] => destruct b eqn:?
+           end.
+    all: try (specialize (G1 eq_refl)); try (specialize (G2 eq_refl)); try (specialize (G3 eq_refl)).
+    all: repeat split; intros; try discriminate; try reflexivity; auto; try congruence.
   Qed.
 End RestraintReexec.
